@@ -86,6 +86,14 @@ func (Engine) Describe(prop string) core.Description {
 		d.Probes = []string{"delivery-accepted", "delivery-rejected", "result-conformance-checked", "read-error-propagated", "truncated-inside-string", "unknown-type-in-body", "partial-accepted", "collection-accepted", "identifier-accepted", "schema-edited-between-deliveries"}
 	}
 
+	d.Rule += "; in a quarter of the runs the schema is reached through a longer edit history (scaffold types added between the real ones and removed again, an attribute added after its type, temporary fields added and removed) with the same final content"
+	d.Probes = append(d.Probes, "schema-built-through-edit-history")
+
+	if prop == "C01" {
+		d.Rule += "; now and then the schema's soft type is edited (one attribute removed, one added) while the sender's resource is alive and untouched"
+		d.Probes = append(d.Probes, "type-edited-while-resource-alive")
+	}
+
 	return d
 }
 
@@ -188,7 +196,15 @@ func runC01(t *core.Tape, st *core.Stats) *core.Violation {
 		err    error
 	)
 
-	if p := core.Call(func() { schema, err = spec.BuildSchema(nil) }); p != nil {
+	viaHistory := false
+
+	defer func() {
+		if viaHistory {
+			st.Inc("probe:schema-built-through-edit-history")
+		}
+	}()
+
+	if p := core.Call(func() { schema, viaHistory, err = spec.BuildSchemaAnyHow(t) }); p != nil {
 		return viol(P, "no-panic", p.Func, "build-schema:"+p.Class, "building the schema panicked: %s", p.Value)
 	}
 
@@ -215,6 +231,52 @@ func runC01(t *core.Tape, st *core.Stats) *core.Violation {
 
 	moS := core.DrawMapOrder(t)
 
+	// The sender's resource exists before the request is handled. Now and then the
+	// schema's (soft) type is edited while the resource is alive and untouched: one
+	// attribute goes, another one comes, so the number of fields stays what it was.
+	// The resource is then a resource of the edited type: the dropped attribute is
+	// gone and the new one reads its zero value.
+	var data jsonapi.Resource
+
+	if p := core.Call(func() { moS.With(func() { data = rs.Clone().Materialise(schema) }) }); p != nil {
+		return viol(P, "no-panic", p.Func, "send-"+impl+":"+p.Class, "building %s panicked: %s", rs.Describe(), p.Value)
+	}
+
+	if !ts.Struct && len(ts.Attrs) > 0 && t.Bool(1, 6) {
+		k := t.Draw(len(ts.Attrs))
+		gone := ts.Attrs[k]
+		neu := world.AttrSpec{Name: gone.Name + "-2", Kind: t.Range(1, 14), Nullable: t.Bool(1, 2)}
+
+		if ts.Attr(neu.Name) == nil && ts.Rel(neu.Name) == nil {
+			var aerr error
+
+			if p := core.Call(func() {
+				schema.RemoveAttr(ts.Name, gone.Name)
+				aerr = schema.AddAttr(ts.Name, jsonapi.Attr{Name: neu.Name, Type: neu.Kind, Nullable: neu.Nullable})
+			}); p != nil {
+				return viol(P, "no-panic", p.Func, "edit-type:"+p.Class, "editing type %q panicked: %s", ts.Name, p.Value)
+			}
+
+			if aerr != nil {
+				st.Inc("probe:schema-refused")
+				return nil
+			}
+
+			edited := *ts
+			edited.Attrs = append([]world.AttrSpec{}, ts.Attrs...)
+			edited.Attrs[k] = neu
+			ts = &edited
+
+			rs = rs.Clone()
+			rs.Type = ts
+			delete(rs.Vals, gone.Name)
+			rs.Vals[neu.Name] = world.ZeroValue(neu.Kind, neu.Nullable)
+
+			t.Logf("type %q edited while the resource is alive: attribute %q removed, %q (%s) added", ts.Name, gone.Name, neu.Name, world.KindName(neu.Kind, neu.Nullable))
+			st.Inc("probe:type-edited-while-resource-alive")
+		}
+	}
+
 	if p := core.Call(func() {
 		moS.With(func() {
 			u, err = jsonapi.NewURLFromRaw(schema, rawURL)
@@ -222,7 +284,7 @@ func runC01(t *core.Tape, st *core.Stats) *core.Violation {
 				return
 			}
 
-			doc = &jsonapi.Document{Data: rs.Clone().Materialise(schema), RelData: map[string][]string{}}
+			doc = &jsonapi.Document{Data: data, RelData: map[string][]string{}}
 			for _, r := range ts.Rels {
 				doc.RelData[ts.Name] = append(doc.RelData[ts.Name], r.Name)
 			}
@@ -530,7 +592,15 @@ func runC02(t *core.Tape, st *core.Stats) *core.Violation {
 		err    error
 	)
 
-	if p := core.Call(func() { schema, err = spec.BuildSchema(nil) }); p != nil {
+	viaHistory := false
+
+	defer func() {
+		if viaHistory {
+			st.Inc("probe:schema-built-through-edit-history")
+		}
+	}()
+
+	if p := core.Call(func() { schema, viaHistory, err = spec.BuildSchemaAnyHow(t) }); p != nil {
 		return viol(P, "no-panic", p.Func, "build-schema:"+p.Class, "building the schema panicked: %s", p.Value)
 	}
 
